@@ -1,6 +1,8 @@
 //! The simulated worlds. Each links the real rsdd code.
 pub mod bdd;
+pub mod cnf;
 pub mod lru;
+pub mod sat;
 pub mod table;
 
 use crate::core::World;
@@ -8,9 +10,11 @@ use crate::core::World;
 static TABLE: table::TableWorld = table::TableWorld;
 static LRU: lru::LruWorld = lru::LruWorld;
 static BDD: bdd::BddWorld = bdd::BddWorld;
+static SAT: sat::SatWorld = sat::SatWorld;
+static CNF: cnf::CnfWorld = cnf::CnfWorld;
 
 pub fn all() -> Vec<&'static dyn World> {
-    vec![&TABLE, &LRU, &BDD]
+    vec![&TABLE, &LRU, &BDD, &SAT, &CNF]
 }
 
 pub fn lookup(name: &str) -> Option<&'static dyn World> {
